@@ -272,6 +272,7 @@ func (g *Global) verifyFunc(key string) (res *FuncResult) {
 // prepass assigns source-order ordinals to constructs and collects anchors and local objects.
 func (x *Exec) prepass() {
 	info := x.fi.Pkg.TypesInfo
+	x.fi.localObjs = nil // FuncInfo is shared between runs of the same function in one process
 	counts := map[string]int{}
 	loopN := 0
 	var stmtStack []ast.Stmt
@@ -459,6 +460,11 @@ func (x *Exec) run() {
 	if x.con != nil {
 		for _, g := range x.con.Ghosts {
 			ty := x.resolveTypeText(g.Type)
+			if strings.TrimSpace(g.Init) == "arbitrary" {
+				// an unconstrained ghost constant: whatever is proved about it holds for every value of its type
+				st.gh["g:"+g.Name] = Val{T: c.freshConst("g_"+g.Name, c.sortOf(ty)), Ty: ty}
+				continue
+			}
 			e, err := parseExprText(g.Init)
 			if err != nil {
 				panic(unsupported(err.Error()))
